@@ -25,7 +25,11 @@ long verif_vfs_events(void);                                 // number of persis
 void verif_vfs_die_after(long n);                            // the simulated process dies right after the n-th persistence event from now
 int verif_vfs_event(void);                                   // a persistence event outside stdio (DiskInterface mutation); returns 1 if the process is dead
 int verif_vfs_frozen(void);
-void verif_expect_fatal(int on);                             // Fatal() is expected by the harness (ends the path quietly)
+void verif_expect_fatal(int on);
+// what the code under test writes to stdout from now on is captured (natively: fd 1 is redirected to a temporary file)
+void verif_stdout_capture(void);
+long verif_stdout_len(void);
+long verif_stdout_copy(char* buf, long cap);                             // Fatal() is expected by the harness (ends the path quietly)
 }
 #define VERIF_ASSERT(c, msg) __CPROVER_assert((c), msg)
 #define VERIF_ASSUME(c) __CPROVER_assume((c))
